@@ -349,6 +349,7 @@ func main() {
 		// ---- parse (incremental mode)
 		var declTokens []string
 		wrapDefault := false
+		funcRetry, firstErrorDecides := false, false
 		{
 			fd := common.FindFunc(fa, "Interpreter", "parse")
 			declShape, wrapShape, bodyShape := missing, missing, missing
@@ -393,6 +394,28 @@ func main() {
 			shape("parse.decl", declShape)
 			shape("parse.wrap", wrapShape)
 			shape("parse.body", bodyShape)
+			// the second attempt for a text that starts with `func` and is not a file
+			retryShape := missing
+			if fd != nil {
+				ast.Inspect(fd, func(n ast.Node) bool {
+					if ifs, ok := n.(*ast.IfStmt); ok && norm(ifs.Cond) == "err!=nil" && strings.Contains(norm(ifs.Body), "ignoreError(") {
+						retryShape = norm(ifs.Body)
+					}
+					return true
+				})
+			}
+			funcRetry = retryShape == "{if!inc||tok!=token.FUNC{returnnil,err}ifignoreError(err,src){returnnil,err}initialError:=errsrc:=wrapInMain(strings.TrimPrefix(src,\"packagemain;\"))f,err=parser.ParseFile(interp.fset,name,src,mode)iferr!=nil{returnnil,initialError}inFunc=true}"
+			shape("parse.retry", retryShape)
+			ie, ise := missing, missing
+			if f := common.FindFunc(fa, "", "ignoreError"); f != nil && f.Body != nil {
+				ie = norm(f.Body)
+			}
+			if f := common.FindFunc(fi, "", "ignoreScannerError"); f != nil && f.Body != nil {
+				ise = norm(f.Body)
+			}
+			firstErrorDecides = ie == "{se,ok:=err.(scanner.ErrorList)if!ok{returnfalse}iflen(se)==0{returnfalse}returnignoreScannerError(se[0],src)}"
+			shape("ignoreError", ie)
+			shape("ignoreScannerError", ise)
 			w := missing
 			if wf := common.FindFunc(fa, "", "wrapInMain"); wf != nil && wf.Body != nil && len(wf.Body.List) == 1 {
 				w = norm(wf.Body.List[0])
@@ -489,8 +512,8 @@ func main() {
 			shapeLines[i] = "(" + common.LeanStr(s[0]) + ", " + common.LeanStr(s[1]) + ")"
 		}
 		hashes := []string{
-			common.HashTable(fsetA, fa, [][2]string{{"Interpreter", "parse"}, {"", "wrapInMain"}, {"Interpreter", "firstToken"}}),
-			common.HashTable(fsetI, fi, [][2]string{{"Interpreter", "resizeFrame"}, {"Interpreter", "eval"}, {"Interpreter", "Eval"}, {"Interpreter", "EvalPath"}}),
+			common.HashTable(fsetA, fa, [][2]string{{"Interpreter", "parse"}, {"", "wrapInMain"}, {"Interpreter", "firstToken"}, {"", "ignoreError"}}),
+			common.HashTable(fsetI, fi, [][2]string{{"Interpreter", "resizeFrame"}, {"Interpreter", "eval"}, {"Interpreter", "Eval"}, {"Interpreter", "EvalPath"}, {"", "ignoreScannerError"}}),
 			common.HashTable(fsetP, fp, [][2]string{{"Interpreter", "Compile"}, {"Interpreter", "compileSrc"}, {"Interpreter", "CompileAST"}, {"Interpreter", "Execute"}}),
 			common.HashTable(fsetS, fs, [][2]string{{"scope", "add"}, {"scope", "lookup"}, {"Interpreter", "initScopePkg"}, {"Interpreter", "Globals"}}),
 			common.HashTable(fsetC, fc, [][2]string{{"", "genGlobalVars"}, {"", "getVars"}, {"", "getVarDependencies"}}),
@@ -511,6 +534,8 @@ def facts : Facts :=
     mainOwnOnly := %s,
     methodReplaces := %s,
     depsPendingOnly := %s,
+    funcRetry := %s,
+    firstErrorDecides := %s,
     iotaResetAtEnd := %s }
 /-- interp.go Eval, EvalPath, eval; program.go Compile, compileSrc, CompileAST, Execute: calls in source order -/
 def pipeline : CallGraph :=
@@ -522,7 +547,7 @@ def shapes : List (String × String) :=
 def sourceHashes : List (String × String) :=
   %s
 end YaegiVerif.Generated.C11
-`, leanBool(copies), leanBool(overwrites), leanBool(allocEnd), common.LeanStrList(declTokens), leanBool(wrapDefault), leanBool(mainAppended), leanBool(mainOwnOnly), leanBool(methodReplaces), leanBool(depsPendingOnly), leanBool(iotaReset),
+`, leanBool(copies), leanBool(overwrites), leanBool(allocEnd), common.LeanStrList(declTokens), leanBool(wrapDefault), leanBool(mainAppended), leanBool(mainOwnOnly), leanBool(methodReplaces), leanBool(depsPendingOnly), leanBool(funcRetry), leanBool(firstErrorDecides), leanBool(iotaReset),
 			strings.Join(pipe, ",\n   "), strings.Join(shapeLines, ",\n   "), strings.Join(hashes, " ++\n  ")), nil
 	})
 }
